@@ -15,7 +15,7 @@ from symx.npproxy import NPProxy
 from symx.models import FRot, FUniverse, FMerge, rotation_matrix_terms, models_selftest, real_universe
 from symx.prove import Prover
 from symx.runner import Acc
-from harness.common import bound, z, fval, isclose
+from harness.common import bypass_guard, bound, z, fval, isclose
 
 PROPERTY = "C10"
 FUNCTIONS = ["molgri.molecules.pts.Pseudotrajectory.__init__", "Pseudotrajectory.generate_pseudotrajectory", "Pseudotrajectory.get_full_grid",
@@ -35,6 +35,7 @@ def bounds(tier):
 def shapes(tier, seed):
     n1s, n2s, fs = ((1, 2), (1, 2, 3, 4), (1, 2, 3, 4)) if tier == "quick" else ((1, 2, 3), (1, 2, 3, 4, 5, 6), (1, 2, 3, 4, 5, 6))
     out = [{"kind": "pt", "n1": a, "n2": b, "frames": f} for a in n1s for b in n2s for f in fs]
+    out += [{"kind": "pt", "n1": 1, "n2": b, "frames": 2, "history": True} for b in (1, 2, 3)]
     out += [{"kind": "center", "n1": a, "n2": b} for a in n1s for b in n2s]
     out.append({"kind": "rotation_lemma", "n1": 0, "n2": 0})
     out.sort(key=lambda s: (s["n1"] + s["n2"]) * s.get("frames", 1))
@@ -90,6 +91,10 @@ def run_pt(shape):
         with bound(P, Rotation=FRot, Merge=FMerge, print=noprint, np=NPProxy()):
             u1 = FUniverse(sarr([[SR(v) for v in r] for r in x1]), sarr([SR(m) for m in w1]), names1)
             u2 = FUniverse(sarr([[SR(v) for v in r] for r in x2]), sarr([SR(m) for m in w2]), names2)
+            if shape.get("history"):
+                # history: a first pseudotrajectory is started on the same molecules and abandoned after one frame
+                first = P.Pseudotrajectory(u1, u2, sarr([[SR(v) for v in g] for g in grid])).generate_pseudotrajectory()
+                next(first)
             pt = P.Pseudotrajectory(u1, u2, sarr([[SR(v) for v in g] for g in grid]))
             frames = [(i, u.atoms.positions.copy(), list(u.atoms.names)) for i, u in pt.generate_pseudotrajectory()]
             # the caller's universes must not have been moved
@@ -161,6 +166,7 @@ def run_center(shape):
     for path in eng.explore(body):
         acc.begin(prover, path)
         if path.kind == "exc":
+            bypass_guard(path.value)
             acc.structural("no_exception", False, detail=repr(path.value) + (path.tb or "")[-600:], cex={"kind": "exception", "exc": type(path.value).__name__})
             continue
         if acc.reachable is not True:
@@ -212,12 +218,15 @@ def replay(cex):
                 grid[k, 3:] = [0.1, 0.2, 0.3, 0.9]
         u1 = real_universe(x1, w1, [f"A{i}" for i in range(n1)])
         u2 = real_universe(x2, w2, [f"B{i}" for i in range(n2)])
+        if shape.get("history"):
+            first = P.Pseudotrajectory(u1, u2, grid).generate_pseudotrajectory()
+            next(first)
         try:
             frames = [(i, u.atoms.positions.copy(), list(u.atoms.names)) for i, u in P.Pseudotrajectory(u1, u2, grid).generate_pseudotrajectory()]
         except Exception as e:  # noqa: BLE001
             return {"reproduced": True, "detail": f"raised {e!r}"}
     bad = []
-    if not np.allclose(u1.atoms.positions, np.asarray(x1, dtype=np.float32)) or not np.allclose(u2.atoms.positions, np.asarray(x2, dtype=np.float32)):
+    if not np.allclose(u1.atoms.positions, np.asarray(x1, dtype=np.float32), atol=1e-5) or not np.allclose(u2.atoms.positions, np.asarray(x2, dtype=np.float32), atol=1e-5):
         bad.append("the caller's universes were moved")
     if len(frames) != nf:
         bad.append(f"{len(frames)} frames for {nf} rows")
@@ -240,7 +249,7 @@ def replay(cex):
 
 def finding_key(cex):
     s = cex["shape"]
-    return f"C10:{s['kind']}:{cex['obligation'].split('[')[0]}"
+    return f"C10:{s['kind']}{':history' if s.get('history') else ''}:{cex['obligation'].split('[')[0]}"
 
 
 def selftest(seed):
